@@ -492,6 +492,18 @@ def r06_6(run):
                 for t, lab in g.guarded_by(cn, lambda t: isinstance(t, ast.Call) and dotted(t.func) == 'isinstance'):
                     if lab == 'T' and len(t.ast.args) == 2 and dotted(t.ast.args[0]) in parsed and (origin(mod, t.ast.args[1]) or '').endswith('ipaddress.' + fam_cls[fam]):
                         ok = True
+            if not ok:
+                # the same decision read off the parsed object's .version (ip_address() yields version 4 or 6, nothing else)
+                vnames = set(names_defined_by(u, lambda v: isinstance(v, ast.Attribute) and v.attr == 'version' and isinstance(v.value, ast.Call)
+                                              and (origin(mod, v.value.func) or '').endswith('ipaddress.ip_address')))
+                vnames |= set('%s.version' % p_ for p_ in parsed)
+                want_v, other_v = (4, 6) if fam == 'v4' else (6, 4)
+                for cn in g.nodes_containing(c):
+                    for t, lab in g.guarded_by(cn, lambda t: isinstance(t, ast.Compare) and len(t.ops) == 1 and isinstance(t.ops[0], (ast.Eq, ast.NotEq)) and dotted(t.left) in vnames):
+                        cv = const(t.ast.comparators[0])
+                        eq = isinstance(t.ast.ops[0], ast.Eq)
+                        if (cv == want_v and (lab == 'T') == eq) or (cv == other_v and (lab == 'T') != eq):
+                            ok = True
             run.ob('R06.6', u, c, '%s is returned exactly under isinstance(parsed, ipaddress.%s)' % (fam, fam_cls[fam]), ok, slot='family-guard:%s' % fam,
                    message='the %s address object is not guarded by isinstance(<parsed>, ipaddress.%s)' % (fam, fam_cls[fam]))
     run.floor('R06.6', 'classifier obligations', k, 5)
